@@ -167,7 +167,10 @@ def rule_b(prog, rep):
     for nd, anc in crate.walk_fn(t):
         if nd.get('k') == 'call' and (short(callee(nd)) == 'remove_file' or callee(nd).endswith('File::create')):
             g = [it for it in guards(anc + (nd,)) if it[0] == 'if']
-            if not any(it[2] is True and tb.origins(it[1]) == {'param(write)'} for it in g):
+            def _under_write(it):
+                c, pol = strip_not(it[1])     # `if write { .. }` or `if !write { return .. } ..`
+                return c.get('k') == 'path' and tb.origins(c) == {'param(write)'} and (it[2] == pol)
+            if not any(_under_write(it) for it in g):
                 bad.append(short(callee(nd)))
     if bad:
         rep.violation('C10.b', 'toggle_alternating_files', t.loc, f'{bad} outside `if write`', key='C10.b/toggle/unguarded')
